@@ -57,7 +57,7 @@ func init() {
 	})
 	register(&Prop{
 		ID:    "C11",
-		Rules: []func(*core.Ctx){RFx, RLock, RClockEnd, ROwn, RProtoCopy, RUnlock},
+		Rules: []func(*core.Ctx){RFx, RLock, RClockEnd, ROwn, RProtoCopy, RUnlock, RNoAlias},
 		Explanation: "R-FX effect confinement: whole-program shared-derived taint on SSA over everything reachable from the match-time API; every write whose target derives from a shared Regexp / Code / global must be one of the lock- or atomic-protected structures. R-LOCK lockset dataflow for those structures. R-OWN ownership of pooled runners and buffers. " +
 			"Decides data-race freedom of the enumerated shared state (a necessary condition of C11). That concurrent results equal sequential ones is NOT decided beyond race freedom plus C12's independence.",
 	})
@@ -105,7 +105,7 @@ func init() {
 	})
 	register(&Prop{
 		ID:    "C17",
-		Rules: []func(*core.Ctx){RSlot, RCapsKey, RCapNode, RSkipTaken, ROptStack, RIgnParen, RDigitAcc, RLazyBuf, RLazyFull, RNameOnce, RParserFresh},
+		Rules: []func(*core.Ctx){RSlot, RCapsKey, RCapNode, RSkipTaken, ROptStack, RIgnParen, RDigitAcc, RLazyBuf, RLazyFull, RNameOnce, RParserFresh, RNoAlias},
 		Explanation: "R-SLOT (group numbers reach slot indexes only through the number->slot maps, in the writer, the replacement data, GroupByNumber and initMatch; internal GroupByNumber callers pass numbers, not dense indexes), R-CAPNODE (every capture node created by the main parse accounts for its slot like the pre-scan does), R-SKIPTAKEN (a named group gets the next number that is not taken). " +
 			"That the pre-scan and the main parse assign the same numbers in every case, name ordering and duplicate-name rules are NOT decided.",
 	})
@@ -117,7 +117,7 @@ func init() {
 	})
 	register(&Prop{
 		ID:    "C19",
-		Rules: []func(*core.Ctx){RCodec, REscAll, REscLetters, RUnits, RRuneByte, RErrFallback, RKeyInj, RSelfShift, RTrunc},
+		Rules: []func(*core.Ctx){RCodec, REscAll, REscLetters, RUnits, RRuneByte, RErrFallback, RKeyInj, RSelfShift, RTrunc, RRangeByte, RDirTrunc},
 		Explanation: "R-CODEC: the writer's decision tree (escape) and the reader's switch (scanCharEscape) are evaluated from the source and compared: named escapes pairwise, hex digit counts from the value interval and padding on each path against the reader's fixed widths, bare-backslash escapes against the reader's default arm, and `meta` against the parser's character-class table. R-ESCALL: Escape cannot bypass escape(). R-UNITS: byte offsets never become rune positions (taint from strings.Index* / range-string keys to []rune indexes and the parser position). " +
 			"That ^Escape(s)$ matches exactly s needs the parser and engine and is NOT decided.",
 	})
@@ -129,7 +129,7 @@ func init() {
 	})
 	register(&Prop{
 		ID:    "C08",
-		Rules: []func(*core.Ctx){RCapNorm, RLastCap, RNonNegLen, RRuneWidth, RLazyTable, RStepDecode, RStrText, RUnits, RUnitCmp, RRuneLenNeg, RCompactSib, RLazyFull, RMapState, RValidFlag, RRefDepth},
+		Rules: []func(*core.Ctx){RCapNorm, RLastCap, RNonNegLen, RRuneWidth, RLazyTable, RStepDecode, RStrText, RUnits, RUnitCmp, RRuneLenNeg, RCompactSib, RLazyFull, RMapState, RValidFlag, RRefDepth, RRangeByte},
 		Explanation: "R-CAPNORM (capture lengths are computed after the end<start swap), R-LASTCAP (a group's embedded capture is its last one; group 0 has exactly one capture from matches[0]: affine evaluation of the index expressions), R-RUNEWIDTH (every byte mapper that sizes runes with RuneLen re-decodes under RuneError), R-STRTEXT (string entry points build match text from the original string), R-UNITS (byte offsets never become rune positions). " +
 			"0 <= index <= index+length <= len for every capture (which depends on the interpreter's positions), balancing compaction and value-for-value agreement of the mappers are NOT decided.",
 	})
